@@ -335,14 +335,13 @@ Qed.
 
 (* MLStructure.nonzero for every number of levels *)
 Lemma nonzero_spec_l : forall bs bidx lt, length bs = length bidx ->
-  (lt = true -> length bidx <> 1%nat) ->
   nonzero bs bidx lt = Some (filter (keep lt) (kron_pattern bs bidx)).
 Proof.
-  intros bs bidx lt Hl H1.
+  intros bs bidx lt Hl.
   destruct bidx as [|b1 [|b2 [|b3 [|b4 rest]]]]; simpl in Hl.
   - unfold nonzero. rewrite nonzero_nd_l. reflexivity.
   - destruct bs as [|[m n] [|? ?]]; try discriminate. unfold nonzero.
-    destruct lt. + exfalso. apply H1; auto. + rewrite kron_pattern_1, keep_false. reflexivity.
+    rewrite kron_pattern_1. reflexivity.
   - destruct bs as [|[m1 n1] [|[m2 n2] [|? ?]]]; try discriminate. unfold nonzero.
     rewrite nonzero_2d_l. reflexivity.
   - destruct bs as [|[m1 n1] [|[m2 n2] [|[m3 n3] [|? ?]]]]; try discriminate. unfold nonzero.
@@ -710,7 +709,7 @@ Proof.
   assert (Hts : forall i j v, In ((i, j), v) (triples bs bidx data) ->
                  0 <= i < fst (shape bs) /\ 0 <= j < snd (shape bs)).
   { intros i j v Hin. unfold triples in Hin.
-    rewrite (nonzero_spec_l bs bidx false Hl) in Hin by discriminate.
+    rewrite (nonzero_spec_l bs bidx false Hl) in Hin.
     rewrite keep_false in Hin. apply in_combine_l in Hin.
     apply (kron_pattern_range bs bidx (i, j) Hwf Hin). }
   assert (Hz : length (zeros (fst (shape bs))) = Z.to_nat (fst (shape bs))) by (unfold zeros; apply repeat_length).
@@ -1024,5 +1023,5 @@ Lemma asmatrix_spec_l : forall bs bidx data r c, length bs = length bidx ->
   dense_entry (asmatrix bs bidx data) r c = dense_entry (combine (kron_pattern bs bidx) data) r c.
 Proof.
   intros. unfold asmatrix. rewrite canon_dense. unfold triples.
-  rewrite (nonzero_spec_l bs bidx false H) by discriminate. rewrite keep_false. reflexivity.
+  rewrite (nonzero_spec_l bs bidx false H). rewrite keep_false. reflexivity.
 Qed.
